@@ -148,6 +148,7 @@ func (s *c13sub) installed() bool { return !s.finished && !s.failed }
 
 type c13client struct {
 	c     *rig.Conn
+	ep    net.EndPoint
 	cl    bus.Client
 	proxy bus.Proxy
 }
@@ -182,6 +183,7 @@ type c13world struct {
 	mode     int      // c13mode at creation
 	mayBlock bool     // a SubscribeID that neither returns nor sends is waiting for another one's remote call (repaired code)
 	split    []string // frames that went out between two Write calls of another frame
+	mid      *c13mid  // what it takes to stop the mailbox goroutine inside a request (c13mid.go), made on first use
 }
 
 // c13serialised: SubscribeID / cancel wait for a remote call of the same client that is in flight
@@ -230,7 +232,7 @@ func c13new(nclients int) *c13world {
 			panic(err)
 		}
 		cl := bus.NewClient(ch)
-		w.clients = append(w.clients, &c13client{c: c, cl: cl, proxy: bus.NewProxy(cl, object.FullMetaObject(c13meta()), w.sid, 1)})
+		w.clients = append(w.clients, &c13client{c: c, ep: ep, cl: cl, proxy: bus.NewProxy(cl, object.FullMetaObject(c13meta()), w.sid, 1)})
 	}
 	w.mode = c13mode
 	if w.mode != 0 {
@@ -505,7 +507,7 @@ func (w *c13world) mbox(c int) {
 func (w *c13world) pendingReply() (int, bool) {
 	for i, cl := range w.clients {
 		for _, b := range cl.c.Down.Blocked() {
-			if b.Head && (b.Hdr.Type == net.Reply || b.Hdr.Type == net.Error) {
+			if b.Head && b.Hdr.Service == w.sid && (b.Hdr.Type == net.Reply || b.Hdr.Type == net.Error) {
 				return i, true
 			}
 		}
@@ -620,13 +622,16 @@ func (w *c13world) reply() {
 	}
 	cl := w.clients[c]
 	nw, nf := cl.c.Down.Writes(), len(cl.c.Down.Frames())
+	sid := w.sid
 	for _, b := range cl.c.Down.Blocked() {
-		if b.Head && (b.Hdr.Type == net.Reply || b.Hdr.Type == net.Error) {
+		if b.Head && b.Hdr.Service == sid && (b.Hdr.Type == net.Reply || b.Hdr.Type == net.Error) {
 			w.noteSplit(c, b)
 			break
 		}
 	}
-	cl.c.Down.Release(func(f rig.Frame) bool { return f.Head && (f.Hdr.Type == net.Reply || f.Hdr.Type == net.Error) })
+	cl.c.Down.Release(func(f rig.Frame) bool {
+		return f.Head && f.Hdr.Service == sid && (f.Hdr.Type == net.Reply || f.Hdr.Type == net.Error)
+	})
 	w.released(c, nw, nf, "reply")
 	w.lab("LReply")
 	w.settle()
@@ -718,6 +723,7 @@ func (w *c13world) emitSend() {
 // the return of SubscribeID, or the end of a cancel (LFanClose).
 func (w *c13world) cliRecv(c int) {
 	cl := w.clients[c]
+	w.skipFillers(c)
 	before := cl.c.Down.Read()
 	f, ok := cl.c.Down.ReleaseOne()
 	if !ok {
@@ -785,6 +791,7 @@ func (w *c13world) dispatched(c int, f rig.Frame) {
 // capacity for bursts of at most 100 events and has the same outcome).
 func (w *c13world) burst(c int) {
 	cl := w.clients[c]
+	w.skipFillers(c)
 	var frames []rig.Frame
 	before := cl.c.Down.Read()
 	for {
@@ -924,8 +931,8 @@ func (w *c13world) drain() {
 		if moved {
 			continue
 		}
-		for c, cl := range w.clients {
-			if len(cl.c.Down.Parked()) > 0 {
+		for c := range w.clients {
+			if w.parkedDown(c) > 0 {
 				w.cliRecv(c)
 				moved = true
 				break
@@ -1494,8 +1501,8 @@ func c13interleaved(rng *hx.Rng, nsteps int) *c13world {
 				}
 			}
 		}
-		for c, cl := range w.clients {
-			if len(cl.c.Down.Parked()) > 0 {
+		for c := range w.clients {
+			if w.parkedDown(c) > 0 {
 				c := c
 				add(3, func() { w.cliRecv(c) })
 			}
@@ -1569,6 +1576,23 @@ func runC13(res *hx.Result, rng *hx.Rng, tier string, outdir string) {
 	for _, f := range c13scripts() {
 		w, name := f()
 		finish(w, "script-"+name)
+	}
+	// an emission inside the mailbox goroutine's processing of a request (c13mid.go)
+	for i, f := range c13midScripts() {
+		for m := 0; m <= 3; m++ {
+			if tier != "thorough" && m != 0 && m != 1+i%3 {
+				continue
+			}
+			c13mode = m
+			w, name := f()
+			c13mode = 0
+			for _, n := range w.notes {
+				if strings.HasPrefix(n, "an emission could not be placed") {
+					res.Notes = append(res.Notes, "C13 script-"+name+": "+n)
+				}
+			}
+			finish(w, "script-"+name)
+		}
 	}
 	// the same scripts on an object with statistics and/or tracing enabled
 	for i, f := range c13scripts() {
